@@ -6,6 +6,7 @@ import (
 	"pgregory.net/rapid"
 
 	"verif/internal/harness"
+	"verif/internal/hostile"
 	"verif/internal/spec"
 )
 
@@ -98,6 +99,10 @@ func LegalReq(t *rapid.T, fc uint8, addrFits bool) spec.Req {
 	case 6:
 		r.Addr = addr("addr", 1)
 		r.Value = U16(t, "value", []int{0, 1, 255, 256, 0xFF00, 65535})
+		if rapid.IntRange(0, 9).Draw(t, "self_crc") == 0 {
+			// value bytes == CRC (low byte first) of unit, function, address: the unit+PDU "ends with its own CRC"
+			r.Value = hostile.SelfCRCValue(r.Unit, 6, r.Addr)
+		}
 	case 15:
 		r.Qty = uint16(inRange(t, "qty", 1, 1968, 7, 8, 9, 1960, 1961))
 		r.Addr = addr("addr", int(r.Qty))
